@@ -23,7 +23,7 @@ use super::{StarknetModuleKind, grand_grand_parent_starknet_module};
 use crate::plugin::consts::{
     ABI_ATTR, ABI_ATTR_EMBED_V0_ARG, ABI_ATTR_PER_ITEM_ARG, COMPONENT_INLINE_MACRO,
     CONCRETE_COMPONENT_STATE_NAME, CONTRACT_STATE_NAME, EVENT_TRAIT, EVENT_TYPE_NAME,
-    EXTERNAL_ATTR, HAS_COMPONENT_TRAIT, STORAGE_STRUCT_NAME, SUBSTORAGE_ATTR,
+    EXTERNAL_ATTR, HAS_COMPONENT_TRAIT, STORAGE_ATTR, STORAGE_STRUCT_NAME, SUBSTORAGE_ATTR,
 };
 use crate::plugin::entry_point::{
     EntryPointGenerationParams, EntryPointKind, EntryPointsGenerationData, GetEntryPointKind,
@@ -264,8 +264,11 @@ fn handle_contract_item<'db, 'a>(
                 &mut data.specific.entry_points_code,
             );
         }
+        // An additional, non-annotated, `Storage` struct is left for the duplicate definition
+        // diagnostic.
         ast::ModuleItem::Struct(item_struct)
-            if item_struct.name(db).text(db).long(db) == STORAGE_STRUCT_NAME =>
+            if item_struct.name(db).text(db).long(db) == STORAGE_STRUCT_NAME
+                && item_struct.has_attr(db, STORAGE_ATTR) =>
         {
             handle_storage_struct(
                 db,
